@@ -137,13 +137,17 @@ let c03 toks =
     let d = int_of_string depth in
     let closed = not (Stdlib.String.length shape > 5 &&
                       (let suf = Stdlib.String.sub shape (Stdlib.String.length shape - 5) 5 in suf = "_open")) in
-    let bad = List.mem shape ["arr_garbage"; "obj_garbage"; "arr_sibling"] in
+    let bad = List.mem shape ["arr_garbage"; "obj_garbage"; "arr_sibling"; "long_number_bad"] in
+    let long = List.mem shape ["ws_run"; "ws_run_open"; "long_string"; "long_string_open"; "long_number";
+                               "long_number_bad"; "wide_arr"; "wide_obj"] in
     let count = match shape with
       | "arr" -> d | "obj" -> 3 * d + 1 | "mixed" -> d + 2 * (d / 2) + 1
-      | "wide_deep" -> 3 * d + 1 | _ -> 0 in
+      | "wide_deep" -> 3 * d + 1
+      | "ws_run" | "long_string" -> 3 | "long_number" -> 2
+      | "wide_arr" -> d + 2 | "wide_obj" -> 3 * d + 4 | _ -> 0 in
     let expected = if bad || not closed then "ERR" else Printf.sprintf "OK %d/%d" count count in
     (* cross-check the closed form against the model where the model can run *)
-    if d <= 500 then begin
+    if d <= 500 || (long && d <= 1000) then begin
       let doc = Fam_deep.deep_doc shape d in
       let r = (if entry = "str" then parse_str_with (opts_of_tok o) doc
                else parse_slice_with (opts_of_tok o) (utf8_encode_all doc)) in
